@@ -55,13 +55,17 @@ prop("C02", "c02",
      "every 4th plan executed with one dependency source parked inside run() (hold driver) until everything the recovered layout lets finish has finished plus a grace period; verdict by the event-log oracle over the transitive dependency relation of the plan. "
      "Plans also come from the wide-stage profile (258..700 registrations most of which touch nothing: one stage of more than 256 groups, then late-comers whose only conflict or dependency is with a far group), range over up to 320 distinct resources (8 types x 40 dynamic ids) with access lists of up to 70 entries, and contain barriers placed after exactly 255..257 / 511..513 registrations. "
      "Every 13th plan is a wide-stage plan (258..700 mostly resource-less systems, 3..12% of them depending on a recent name): dependencies on systems that sit in groups 256+ of one stage. One shard (quick) / four shards (thorough) also build a plan of 2^16+ stages (every filler followed by a barrier) whose last five systems depend on one another: dependants strictly later. "
-     "distinct non-trivial = (plan hash, driver) with >=1 dependency edge and either a completed hold or >=1 dependency pair checked in the log.")
+     "Happens-before probe (thorough tier, decided by the race detectors): the same kind of plans run with systems that touch no atomic of the harness at all - each one reads, non-atomically, the plain cells of everything that must have finished before it (its dependencies, systems in front of an effective barrier, every ordinary system for a thread-local one, its own run in the previous dispatch; the caller reads all cells after dispatch / wait returned) and writes its own cell - under ThreadSanitizer and under Miri: an ordering that holds in time but lacks a happens-before edge (a latch built from relaxed atomics, say) is a data race there, while the event log - whose own atomic operations synchronise the threads it observes - cannot see it. "
+     "distinct non-trivial = (plan hash, driver) with >=1 dependency edge and either a completed hold or >=1 dependency pair checked in the log.",
+     thorough=[shards(name="main"), san("tsan", name="tsan-hb", sub="hb", args=["--deps"], scale=3.0), miri(rayon=True, name="miri-hb", sub="hb", args=["--tiny", "--deps"], scale=0.004)])
 
 prop("C03", "c03",
      "cases = generated plans from barrier-heavy profiles (leading, trailing, repeated barriers, unrelated systems on both sides, barriers inside batches); layout oracle: max stage before an effective barrier < min stage after it; "
      "every 4th plan executed with a pre-barrier system parked inside run(); event-log oracle orders every pre/post pair and thread-local systems after everything. "
      "A sixth of the plans are long registration sequences (200..700 systems) whose barriers come after exactly 255..257 / 511..513 registrations; runs of 255..257 / 511..513 / 767..769 / 65535..65537 consecutive add_barrier calls occur in every profile; the 2^16+-stage plan of C02 is checked for its barriers too. "
-     "distinct non-trivial = (plan,layout) in which an effective barrier separates >=1 pair that has neither a conflict nor a dependency.")
+     "Happens-before probe (thorough tier, decided by the race detectors): the same kind of plans run with systems that touch no atomic of the harness at all - each one reads, non-atomically, the plain cells of everything that must have finished before it (its dependencies, systems in front of an effective barrier, every ordinary system for a thread-local one, its own run in the previous dispatch; the caller reads all cells after dispatch / wait returned) and writes its own cell - under ThreadSanitizer and under Miri: an ordering that holds in time but lacks a happens-before edge (a latch built from relaxed atomics, say) is a data race there, while the event log - whose own atomic operations synchronise the threads it observes - cannot see it. "
+     "distinct non-trivial = (plan,layout) in which an effective barrier separates >=1 pair that has neither a conflict nor a dependency.",
+     thorough=[shards(name="main"), san("tsan", name="tsan-hb", sub="hb", args=["--barriers"], scale=3.0), miri(rayon=True, name="miri-hb", sub="hb", args=["--tiny", "--barriers"], scale=0.004)])
 
 prop("C07", "c07",
      "cases = generated plans with batches nested 1..3 deep, controllers with empty/read/write/mixed declared data (real library SystemData types), k = 0..3 inner dispatches, HCtl and MultiDispatcher controllers; "
@@ -78,7 +82,9 @@ prop("C12", "c12",
      "cases = generated plans with 1..6 thread-local systems mixed with ordinary systems, barriers and batches (also builders with thread-local systems passed to add_batch); executed every 4th via dispatch / seq+thread_local / async wait under jitter, hold of an ordinary system or forced overlap; "
      "oracle: thread id == caller's, start after every ordinary system's end, registration order, one at a time; layout oracle: thread-local list == registration order. "
      "Two hand-made scenarios every 40th case each: (a) a whole dispatcher with thread-local systems of its own registered as a thread-local system of another dispatcher (nested up to two deep; dispatch / dispatch_seq+dispatch_thread_local / RunNow::run_now): the flattened registration order on the calling thread, once per dispatch; (b) async: a thread-local system panics inside wait() (caught), then wait() again with or without a new dispatch(): every thread-local system runs, from the first one. "
-     "distinct non-trivial = (plan hash, driver) with >=1 thread-local window observed beside >=1 ordinary system.")
+     "Happens-before probe (thorough tier, decided by the race detectors): the same kind of plans run with systems that touch no atomic of the harness at all - each one reads, non-atomically, the plain cells of everything that must have finished before it (its dependencies, systems in front of an effective barrier, every ordinary system for a thread-local one, its own run in the previous dispatch; the caller reads all cells after dispatch / wait returned) and writes its own cell - under ThreadSanitizer and under Miri: an ordering that holds in time but lacks a happens-before edge (a latch built from relaxed atomics, say) is a data race there, while the event log - whose own atomic operations synchronise the threads it observes - cannot see it. "
+     "distinct non-trivial = (plan hash, driver) with >=1 thread-local window observed beside >=1 ordinary system.",
+     thorough=[shards(name="main"), san("tsan", name="tsan-hb", sub="hb", args=["--tl"], scale=3.0), miri(rayon=True, name="miri-hb", sub="hb", args=["--tiny", "--tl"], scale=0.004)])
 
 prop("C04", "c04",
      "cases = generated plans (1..600 systems, funnels that fill groups, dozens to hundreds of stages, batches nested with k=0..3 inner dispatches incl. MultiDispatcher, thread-local systems) x pool 1..16 x a random sequence (length 1..12) of dispatch / dispatch_par / dispatch_seq / dispatch_seq+dispatch_thread_local / dispatch_thread_local calls; "
@@ -143,8 +149,9 @@ prop("C15", "c15",
      "Histories also contain while running() {} polling, the deprecated res()/mut_res(); every 40th case is a plan of 257..330 stages. "
      "After every accessor returns: active systems == 0 and completions == dispatches x systems; running()==false only with all completions; dispatch #n returns only when #n-1 is complete; whole-history event log: every system once per epoch, epochs never overtake; thread-local systems only between wait() marks, on the calling thread, once per wait. "
      "Long histories (4 per shard): running() is polled until false once, then 254..256 / 65534..65536 frames of dispatch + wait / wait_without_tl / world, then one more dispatch in which a system is parked inside run while running() is polled 3..30 times (must be true), then wait. "
+     "Happens-before probe (thorough tier, decided by the race detectors): the same kind of plans run with systems that touch no atomic of the harness at all - each one reads, non-atomically, the plain cells of everything that must have finished before it (its dependencies, systems in front of an effective barrier, every ordinary system for a thread-local one, its own run in the previous dispatch; the caller reads all cells after dispatch / wait returned) and writes its own cell - under ThreadSanitizer and under Miri: an ordering that holds in time but lacks a happens-before edge (a latch built from relaxed atomics, say) is a data race there, while the event log - whose own atomic operations synchronise the threads it observes - cannot see it. "
      "distinct non-trivial = (plan, history) with >=1 poll of running() on a parked system and >=2 dispatches.",
-     thorough=[shards(name="main"), san("tsan", name="tsan", scale=0.25)])
+     thorough=[shards(name="main"), san("tsan", name="tsan", scale=0.25), san("tsan", name="tsan-hb", sub="hb", args=["--async"], scale=3.0), miri(rayon=True, name="miri-hb", sub="hb", args=["--tiny", "--async"], scale=0.004)])
 
 prop("C16", "c16",
      "cases = random trees (depth <=5, fan-out <=6) assembled at run time from the real Par/Seq nodes through a boxing adapter, leaves = self-logging systems over 26 writable + 6 read-only slots, a third of the trees poisoned with one conflicting par-sibling access; conflict-free trees are set up and dispatched 2-3 times on pools 1..16 from outside and from inside the pool (also through RunNow). "
